@@ -95,7 +95,7 @@ def fs_case(draw):
         if c <= 6:
             names.append(draw(st.sampled_from(table)))
         elif c == 7:
-            names.append(draw(N.synthetic_label(max_size=7)))
+            names.append(draw(st.one_of(N.synthetic_label(max_size=7), st.sampled_from(("ChargeConj(Xq)", "ChargeConj(ChargeConj(Xq))", "ChargeConj(K+)", "ChargeConj()")))))
         else:
             names.append(draw(st.text(alphabet="abcXYZ019+-*'()_~", min_size=1, max_size=6)))
     # particle/antiparticle pairs in the same final state (with unequal counts) are a class of
@@ -137,6 +137,14 @@ def check_fs(case, rec):
         raise Mismatch("C04:final-state", f"conjugate of {dict(src)} (pdg_name={pdg})", dict(want), dict(got))
     if ln != sum(src.values()):
         raise Mismatch("C04:particle-count", "", sum(src.values()), ln)
+    # conjugating twice: the original for names with a known conjugate, a doubly wrapped name otherwise
+    want2 = Counter()
+    for n, m in want.items():
+        want2[ref(n)] += m
+    with impl(ID, "DaughtersDict twice"):
+        cc2 = cc.charge_conjugate(pdg_name=pdg) if pdg else cc.charge_conjugate()
+    if Counter(dict(cc2.items())) != want2:
+        raise Mismatch("C04:final-state-twice", f"conjugate of the conjugate of {dict(src)} (pdg_name={pdg})", dict(want2), dict(cc2.items()))
     if dict(dd.items()) != dict(src):
         raise Mismatch("C04:input-mutated", "final state changed by charge_conjugate()", dict(src), dict(dd.items()))
     # decay mode
